@@ -9,30 +9,6 @@ open CV.Parse
 
 /-! ## tokens -/
 
-def splitKV (t : String) : Option (String × String) :=
-  match t.splitOn "=" with
-  | [] => none
-  | [_] => none
-  | k :: rest => some (k, "=".intercalate rest)
-
-def parseKVs (ws : List String) : Option KVs := ws.mapM splitKV
-
-def getF (kvs : KVs) (path : String) : Option String := (kvs.find? (fun kv => kv.1 == path)).map (·.2)
-
-def listToks (tok : String) : List String := if tok == "-" then [] else tok.splitOn ","
-def showList (l : List String) : String := if l.isEmpty then "-" else ",".intercalate l
-
-def parseMeta (tok : String) : Option (List (String × String)) :=
-  (listToks tok).mapM fun e => match e.splitOn ":" with | [k, v] => some (k, v) | _ => none
-def showMeta (m : List (String × String)) : String := showList (m.map fun kv => kv.1 ++ ":" ++ kv.2)
-
-def parseOrigin (t : String) : Option Origin :=
-  if t.startsWith "mp" then some ⟨t, true⟩ else if t.startsWith "mn" then some ⟨t, false⟩ else none
-
-def parseCidOpt (t : String) : Option String := if t == "c-" then none else some t
-def showCidOpt : Option String → String | none => "c-" | some t => t
-def showTime (t : Time) : String := "t" ++ toString t.sec ++ "." ++ toString t.nsec
-
 def hexVal (c : Char) : Option Nat :=
   if c.isDigit then some (c.toNat - '0'.toNat)
   else if 'A' ≤ c && c ≤ 'F' then some (c.toNat - 'A'.toNat + 10)
@@ -49,37 +25,6 @@ def unpctChars : List Char → List Char
 
 /-- the Go string of a string token `~...` -/
 def unStr (tok : String) : String := String.ofList (unpctChars (tok.drop 1).toString.toList)
-
-/-! ## typed pins from dumps and back -/
-
-def parseOpts (kvs : KVs) (pre : String) : Option PinOptions := do
-  let g := fun (n : String) => getF kvs (pre ++ n)
-  pure {
-    rmin := ← (← g "ReplicationFactorMin").toInt?, rmax := ← (← g "ReplicationFactorMax").toInt?,
-    name := ← g "Name", mode := ← (← g "Mode").toInt?, shardSize := ← (← g "ShardSize").toNat?,
-    userAllocs := listToks (← g "UserAllocations"), expireAt := ← parseTime (← g "ExpireAt"),
-    metadata := ← parseMeta (← g "Metadata"), pinUpdate := parseCidOpt (← g "PinUpdate"),
-    origins := ← (listToks (← g "Origins")).mapM parseOrigin }
-
-def parsePin (kvs : KVs) (pre : String) : Option Pin := do
-  let g := fun (n : String) => getF kvs (pre ++ n)
-  let ref ← g "Reference"
-  pure {
-    opts := ← parseOpts kvs (pre ++ "PinOptions."), cid := parseCidOpt (← g "Cid"), type := ← (← g "Type").toNat?,
-    allocs := listToks (← g "Allocations"), maxDepth := ← (← g "MaxDepth").toInt?,
-    reference := if ref == "nil" then none else some ref }
-
-def showOpts (po : PinOptions) (pre : String) : KVs :=
-  [ (pre ++ "ReplicationFactorMin", toString po.rmin), (pre ++ "ReplicationFactorMax", toString po.rmax),
-    (pre ++ "Name", po.name), (pre ++ "Mode", toString po.mode), (pre ++ "ShardSize", toString po.shardSize),
-    (pre ++ "UserAllocations", showList po.userAllocs), (pre ++ "ExpireAt", showTime po.expireAt),
-    (pre ++ "Metadata", showMeta po.metadata), (pre ++ "PinUpdate", showCidOpt po.pinUpdate),
-    (pre ++ "Origins", showList (po.origins.map (·.tok))) ]
-
-def showPin (p : Pin) : KVs :=
-  showOpts p.opts "PinOptions." ++
-  [ ("Cid", showCidOpt p.cid), ("Type", toString p.type), ("Allocations", showList p.allocs),
-    ("MaxDepth", toString p.maxDepth), ("Reference", match p.reference with | none => "nil" | some r => r) ]
 
 /-! ## predictions -/
 
